@@ -15,11 +15,10 @@ Definition gen_extra_mem_ok (g : gen) : bool :=
 Theorem gen_extra_link : forall g, gen_wellformed g = true ->
   forallb (fun c => negb (len c =? 0)) (g_w g) = true ->
   ordered (gen_order g) (concat (g_a g)) -> ordered (gen_order g) (concat (g_b g)) -> ordered (gen_order g) (concat (g_w g)) ->
-  (forall p s m, In (p, s, m) (g_sruns g) -> stranded_guard p (gen_order g) (g_sizes g) (concat (g_a g)) (concat (g_w g))) ->
   (forall e q s m, In (e, q, s, m) (g_eruns g) -> exists nodes t, compile e 5 12 = (nodes, ONode t)) ->
   gen_extra_mem_ok g = true -> gen_extra_model_ok g = true -> gen_extra_spec_ok g = true.
 Proof.
-  intros g Hwf Hw Hoa Hob How Hsg Heg Hmem Hm.
+  intros g Hwf Hw Hoa Hob How Heg Hmem Hm.
   unfold gen_extra_spec_ok. rewrite Hw. cbn [andb].
   unfold gen_wellformed in Hwf. rewrite !andb_true_iff in Hwf. destruct Hwf as [[[[Ha Hb] Hane] Hbne] Hsne].
   assert (Hnd : NoDup (gen_order g)) by apply NoDup_arange_from.
@@ -39,8 +38,7 @@ Proof.
   apply andb_true_iff. split.
   - rewrite all_true_forall in *. intros [[p streamed] mem] Hin.
     specialize (Hm1 _ Hin). specialize (Hmem1 _ Hin). cbn in Hm1, Hmem1. fold (gen_order g) in Hm1.
-    rewrite (stranded_spec_current p (gen_order g) (g_sizes g) (g_a g) (g_w g) Hnd Hlen Hpos Hane' Hna Hnw Hoa How
-               (Hsg p streamed mem Hin)) in Hm1.
+    rewrite (stranded_spec_current p (gen_order g) (g_sizes g) (g_a g) (g_w g) Hnd Hlen Hpos Hane' Hna Hnw Hoa How) in Hm1.
     fold (gen_order g). rewrite Hmem1, Hm1. reflexivity.
   - rewrite all_true_forall in *. intros [[[e q] streamed] mem] Hin.
     specialize (Hm2 _ Hin). specialize (Hmem2 _ Hin). cbn in Hm2, Hmem2. fold (gen_order g) in Hm2.
